@@ -654,6 +654,17 @@ impl<'tcx> Interp<'tcx> {
                 }
                 None => {
                     let t = src.taint_of();
+                    if let Val::Opq(Opaque::Digest { kind, len, .. }) = src {
+                        let mut d = BTreeMap::new();
+                        d.insert("kind".to_string(), kind.clone());
+                        d.insert("digest_len".to_string(), len.to_string());
+                        d.insert("dest".to_string(), self.describe_ptr(&db));
+                        d.insert("dest_start".to_string(), ds.short());
+                        d.insert("dest_len".to_string(), dl.short());
+                        d.insert("path".to_string(), self.call_path());
+                        let inst = self.stack.last().map(|b| b.name.clone()).unwrap_or_default();
+                        self.probes.push(Probe { what: "digest_copy".into(), inst, ctx: String::new(), data: d });
+                    }
                     let b = Val::Int(IntV::new(0, 255, ITy::U8).with_taint(t));
                     if let (Some(d0), Some(nn)) = (ds.is_const(), dl.is_const()) {
                         for i in 0..nn {
@@ -1054,6 +1065,8 @@ impl<'tcx> Interp<'tcx> {
             d.insert("kind".to_string(), kind.clone());
             d.insert("id".to_string(), id.to_string());
             d.insert("absorbed".to_string(), render_absorbed(&absorbed));
+            d.insert("items".to_string(), absorbed_json(&absorbed));
+            d.insert("path".to_string(), self.call_path());
             let ctx = self.stack.iter().rev().skip(1).next().map(|b| b.name.clone()).unwrap_or_default();
             let inst = self.stack.last().map(|b| b.name.clone()).unwrap_or_default();
             self.probes.push(Probe { what: "xof".into(), inst, ctx, data: d });
@@ -1066,6 +1079,8 @@ impl<'tcx> Interp<'tcx> {
             let mut d = BTreeMap::new();
             d.insert("kind".to_string(), kind.clone());
             d.insert("absorbed".to_string(), render_absorbed(&absorbed));
+            d.insert("items".to_string(), absorbed_json(&absorbed));
+            d.insert("path".to_string(), self.call_path());
             d.insert("len".to_string(), len.to_string());
             let inst = self.stack.last().map(|b| b.name.clone()).unwrap_or_default();
             self.probes.push(Probe { what: "digest".into(), inst, ctx: String::new(), data: d });
@@ -1095,8 +1110,15 @@ impl<'tcx> Interp<'tcx> {
             d.insert("off".to_string(), format!("{}..{}", pos_lo, pos_hi));
             d.insert("len".to_string(), l.short());
             d.insert("dest".to_string(), self.describe_ptr(&b));
+            d.insert("dest_start".to_string(), s.short());
+            d.insert("path".to_string(), self.call_path());
             let inst = self.stack.last().map(|b| b.name.clone()).unwrap_or_default();
-            self.probes.push(Probe { what: "xof_read".into(), inst, ctx: String::new(), data: d });
+            // rejection-sampling loops read thousands of times: keep the first few reads per reader
+            let cnt = self.xof_reads.entry(id).or_insert(0);
+            *cnt += 1;
+            if *cnt <= 4 {
+                self.probes.push(Probe { what: "xof_read".into(), inst, ctx: String::new(), data: d });
+            }
             self.write_ptr(st, p, Val::Opq(Opaque::Xof { kind, absorbed, pos_lo: pos_lo.saturating_add(l.lo), pos_hi: pos_hi.saturating_add(l.hi), id }));
             return one(Val::unit());
         }
@@ -1242,8 +1264,7 @@ impl<'tcx> Interp<'tcx> {
                         }
                     }
                 }
-                let short = bi.name.split("::<").next().unwrap_or(&bi.name).to_string();
-                (short, ln)
+                (bi.short.clone(), ln)
             }
             None => ("?".into(), format!("_{}", p.local)),
         };
@@ -1262,7 +1283,7 @@ impl<'tcx> Interp<'tcx> {
     /// describe a byte-slice argument being absorbed by a hash
     pub fn describe_bytes(&self, st: &State, v: &Val) -> Absorb {
         match v {
-            Val::Opq(Opaque::Digest { kind, len, taint, .. }) => Absorb { src: format!("digest<{}>", kind), len_lo: *len as i128, len_hi: *len as i128, consts: None, taint: *taint, taint_all: *taint, lin: None },
+            Val::Opq(Opaque::Digest { kind, len, taint, .. }) => Absorb { src: format!("digest<{}>", kind), len_lo: *len as i128, len_hi: *len as i128, consts: None, taint: *taint, taint_all: *taint, whole: false, lin: None },
             _ => match self.slice_elems(st, v) {
                 Some((b, s, l)) => {
                     let mut src = self.describe_ptr(&b);
@@ -1321,9 +1342,17 @@ impl<'tcx> Interp<'tcx> {
                     if l.is_const() == Some(0) {
                         taint_all = 0;
                     }
-                    Absorb { src, len_lo: l.lo, len_hi: l.hi, consts, taint, taint_all, lin }
+                    // whole input slice: starts at 0 and its length is the input's own length symbol
+                    let whole = b.frame == 0 && b.proj.is_empty() && s.is_const() == Some(0) && match (&l.lin, self.input_names.get(b.local as usize)) {
+                        (Some(ll), Some(nm)) => match ll.single() {
+                            Some((a, 1, 0)) => self.atom_names.get(&a).map(|x| *x == format!("len({})", nm)).unwrap_or(false),
+                            _ => false,
+                        },
+                        _ => false,
+                    };
+                    Absorb { src, len_lo: l.lo, len_hi: l.hi, consts, taint, taint_all, whole, lin }
                 }
-                None => Absorb { src: format!("?{}", v.short()), len_lo: 0, len_hi: i128::MAX, consts: None, taint: 3, taint_all: 0, lin: None },
+                None => Absorb { src: format!("?{}", v.short()), len_lo: 0, len_hi: i128::MAX, consts: None, taint: 3, taint_all: 0, whole: false, lin: None },
             },
         }
     }
@@ -1340,6 +1369,21 @@ impl<'tcx> Interp<'tcx> {
         }
         s
     }
+}
+
+pub fn absorbed_json(v: &[Absorb]) -> String {
+    use crate::json::J;
+    J::Arr(v.iter().map(|a| {
+        let mut o = J::obj();
+        o.set("src", J::s(a.src.clone()));
+        o.set("len", J::Arr(vec![J::Int(a.len_lo), J::Int(a.len_hi.min(1i128 << 62))]));
+        o.set("consts", match &a.consts { Some(c) => J::s(c.iter().map(|b| format!("{:02x}", b)).collect::<String>()), None => J::Null });
+        o.set("lin", match &a.lin { Some(l) => J::s(l.clone()), None => J::Null });
+        o.set("taint", J::i(a.taint));
+        o.set("taint_all", J::i(a.taint_all));
+        o.set("whole", J::Bool(a.whole));
+        o
+    }).collect()).to_string()
 }
 
 pub fn render_absorbed(v: &[Absorb]) -> String {
